@@ -22,7 +22,7 @@ Compounds == Singles \cup Pairs
 
 Core == IF Tier = "small" THEN {<<"a">>, <<"b">>, <<".c">>}
         ELSE IF Tier = "quick" THEN {<<"a">>, <<"b">>, <<".c">>, <<":not(", ".c", ")">>}
-        ELSE {<<"a">>, <<"b">>, <<".c">>, <<"a", ".c">>, <<":not(", ".c", ")">>, <<"*">>, <<"#i">>, <<"::before">>}
+        ELSE {<<"a">>, <<"b">>, <<".c">>, <<"a", ".c">>, <<":not(", ".c", ")">>, <<"*">>, <<"::before">>}
 Combs == {"sp", ">", "+", "~"}
 
 Extras == {<<"a", "sp", "b", "sp", ".c">>, <<"a", ">", "b", "sp", ".c">>, <<"a", "sp", "b", ">", ".c">>,
